@@ -101,8 +101,9 @@ IndepOKFor(a, b) ==
 -----------------------------------------------------------------------------
 VARIABLE fa
 AllF == SUBSET Assign
-SInit == fa \in AllF
-SNext == UNCHANGED fa
+(* the lattice of subsets is walked one element at a time so that TLC's workers share the invariant evaluations *)
+SInit == fa = {}
+SNext == \E x \in Assign : fa' = fa \cup {x}
 SSpec == SInit /\ [][SNext]_fa
 CartesianOK == \A b \in AllF : CartesianOKFor(fa, b)
 DescOK == \A d \in AllF : DescOKFor(fa, d)
